@@ -76,8 +76,9 @@ class TypeRegistry:
             if not self.validator(f):
                 raise TypeError(f'Invalid register target: {f}, must pass <{self.validator}> validate')
             self._registry.insert(0, (detector, f, priority))
-            if priority:
-                self._registry.sort(key=lambda v: -v[2])
+            # stable sort: equal priorities keep 'most recent first'; must also run for
+            # priority 0, which otherwise stays in front of higher-priority entries
+            self._registry.sort(key=lambda v: -v[2])
             # a later registration must take effect for types that were already resolved
             self._cache.clear()
             return f
